@@ -24,6 +24,8 @@ DISPATCH_KEYS = ["K", "M"]
 SECTION_KEYS = ["S.X", "S.Y", "S.U.V", "T.X", "T.Z"]
 LIST_KEYS = ["L.0", "L.1"]
 TEMPLATE_KEYS = ["P", "Q", "R"]
+# keys whose values are never templated by the generators: an Option on one of them fails only when absent
+SAFE_KEYS = ["C", "D", "K", "M", "S.Y", "T.Z", "T.X"]
 EXC_CLASSES = ["ValueError", "TypeError", "KeyError", "RuntimeError", "ZeroDivisionError", "CustomError"]
 
 
@@ -54,6 +56,7 @@ class Cfg:
     dict_into_template: bool = False       # F22
     raw_iter: bool = False                 # Iter/Map outside an immediately consuming apply
     all_options: bool = True
+    total_fns: bool = False        # only user callables that cannot raise (C10/C11: "bodies total")
 
 
 class G:
@@ -140,6 +143,19 @@ class G:
             return P.value(self.pick(SCALARS))
         return self.option(ty, 0)
 
+    def plain_leaf(self) -> int:
+        """a constant, or an Option without domain (constant default at most)"""
+        P = self.P
+        if self.chance(0.3):
+            self.count("value")
+            return P.value(self.pick(SCALARS))
+        self.count("option")
+        dflt = None
+        if self.chance(0.3):
+            c = self.pick(SCALARS)
+            dflt = P.template(c) if isinstance(c, str) else P.value(c)
+        return P.option(self.pick(SAFE_KEYS), dflt=dflt)
+
     def option(self, ty: str, depth: int) -> int:
         P = self.P
         self.count("option")
@@ -184,7 +200,12 @@ class G:
             self.count("apply")
             return P.apply(P.option(self.pick(DISPATCH_KEYS), dflt=P.value("x")), P.fnvalue(self.fresh_fn("g")))
         if r < 0.9 and depth > 0 and self.cfg.datasets:
-            return self.dataset(depth - 1, scalar_const=self.pick(DISPATCH_VALUES))
+            # a dataset as dispatch: constant body, nothing that can fail (no F19 trigger)
+            self.count("dataset")
+            self.n_fn += 1
+            nid = P.dataset([], fn_name=P.const_fn(f"k{self.n_fn}", self.pick(DISPATCH_VALUES)))
+            self.datasets.append(nid)
+            return nid
         self.count("value")
         return P.value(self.pick(DISPATCH_VALUES))
 
@@ -193,7 +214,7 @@ class G:
         P = self.P
         r = self.rng.random()
         if kind == "pred":
-            c = self.pick(["truthy", "not", "eq", "ne", "lt", "gt", "isin"])
+            c = self.pick(["truthy", "not", "eq", "ne", "isin"] if self.cfg.total_fns else ["truthy", "not", "eq", "ne", "lt", "gt", "isin"])
             if c in ("eq", "ne"):
                 return P.fnvalue(c, self.pick(SCALARS))
             if c in ("lt", "gt"):
@@ -203,7 +224,7 @@ class G:
             return P.fnvalue(c)
         if r < 0.4:
             return P.fnvalue(self.fresh_fn("g"))
-        c = self.pick(["ident", "not", "tostr", "neg", "add", "pair", "len", "eq"])
+        c = self.pick(["ident", "not", "tostr", "pair", "eq"] if self.cfg.total_fns else ["ident", "not", "tostr", "neg", "add", "pair", "len", "eq"])
         if c == "add":
             return P.fnvalue(c, self.pick([0, 1, 2, "x"]))
         if c in ("pair", "eq"):
@@ -223,6 +244,8 @@ class G:
                         ("pipeline", 0.5), ("dictc", 0.3)]
         if ty == "list":
             choices += [("collection_list", 1.0)]
+        if ty in ("any", "list") and not cfg.raising:
+            choices += [("lazy_coalesce", 0.4)]
         if cfg.binds:
             choices.append(("bind", 0.5))
         if cfg.wrappers:
@@ -254,7 +277,7 @@ class G:
             for i in range(n):
                 if not cfg.catch_unsafe and i < n - 1:
                     # catch-safe member: fails only by an absent first lookup
-                    ms.append(P.option(self.scalar_key() if ty in ("any", "scalar") else ("L" if ty == "list" else "S")))
+                    ms.append(P.option(self.pick(SAFE_KEYS) if ty in ("any", "scalar") else ("L" if ty == "list" else "T")))
                     self.count("option")
                 else:
                     ms.append(self.expr(ty, d))
@@ -265,7 +288,7 @@ class G:
             cases = [(self.fn_node("pred"), self.expr(ty, d)) for _ in range(self.rng.randint(1, 3))]
             if self.chance(0.2) and depth > 1:
                 # a condition whose parameter comes from an option (PartialApplication)
-                pk = P.partial(P.fnvalue(self.pick(["lt", "gt", "eq"])), args=[P.option(self.pick(SCALAR_KEYS), dflt=P.value(1))])
+                pk = P.partial(P.fnvalue(self.pick(["eq", "ne"] if cfg.total_fns else ["lt", "gt", "eq"])), args=[P.option(self.pick(SCALAR_KEYS), dflt=P.value(1))])
                 cases[0] = (pk, cases[0][1])
                 self.count("partial")
             dflt = self.expr(ty, d) if self.chance(0.7) else None
@@ -291,6 +314,16 @@ class G:
             if c == "set":
                 es = [self.expr("scalar", d) for _ in range(self.rng.randint(0, 3))]
             return P.collection(c, es)
+        if kind == "lazy_coalesce":
+            # coalesce over *lazy* members (Iter evaluates to a generator), consumed by the enclosing apply
+            self.count("coalesce"); self.count("iter")
+            ms = []
+            for _ in range(self.rng.randint(1, 3)):
+                # leaves only: an element that validates also evaluates (no user code in between)
+                ms.append(P.iter([self.plain_leaf() for _ in range(self.rng.randint(1, 3))]))
+            if self.chance(0.5):
+                ms.append(P.value([0]))
+            return P.apply(P.coalesce(ms), P.fnvalue("py:list"))
         if kind == "dictc":
             self.count("collection")
             pairs = [P.iter([P.value(k), self.expr("any", d)]) for k in self.rng.sample(["a", "b", "c"], self.rng.randint(0, 2))]
@@ -315,7 +348,7 @@ class G:
             steps = []
             for _ in range(self.rng.randint(1, 3)):
                 if self.chance(0.5):
-                    steps.append(P.step(P.partial(P.fnvalue(self.pick(["add", "pair", "eq"])),
+                    steps.append(P.step(P.partial(P.fnvalue(self.pick(["pair", "eq"] if cfg.total_fns else ["add", "pair", "eq"])),
                                                   kw=[], args=[self.expr("scalar", min(d, 1))])))
                     self.count("partial")
                 else:
@@ -327,7 +360,7 @@ class G:
         if kind == "bind":
             self.count("bind")
             table = [(k, self.expr(ty, d)) for k in self.distinct(SCALARS, self.rng.randint(1, 3))]
-            dflt = self.expr(ty, d) if self.chance(0.7) else None
+            dflt = self.expr(ty, d) if (self.chance(0.7) or cfg.total_fns) else None
             return P.bind(self.expr("scalar", d), table, dflt, cls=self.pick(EXC_CLASSES))
         if kind == "with":
             self.count("with")
@@ -452,7 +485,9 @@ def perturb(rng: random.Random, cfg: Cfg, o: Dict[str, Any]) -> Dict[str, Any]:
             else:
                 o[s] = {"X": rng.choice(SCALARS)}
         elif r < 0.78 and cfg.templates:
-            o[rng.choice(SCALAR_KEYS)] = rng.choice(["{B}", "t{C}", "\\{x\\}", "{S.Y}"])
+            # reference-closed or dangling, never cyclic: a key only references keys of lower rank
+            k = rng.choice(["A", "B"])
+            o[k] = rng.choice(["{B}", "t{C}", "\\{x\\}", "{D}{C}"] if k == "A" else ["{C}", "t{C}", "\\{x\\}"])
         elif r < 0.84 and cfg.templates and cfg.containers_with_templates:
             o[rng.choice(["L", "S"])] = rng.choice([["{A}", 1], {"X": "{B}", "Y": 2}]) if rng.random() < 0.5 else o.get("L", [1])
         elif r < 0.88 and cfg.scalar_prefix:
